@@ -149,6 +149,7 @@ std::string jesc(const std::string& s)
             pmc_rt_begin(rec);
             g_specs[rec->spec_index].run();
             pmc_rt_end();
+            pmc_cov_flush();
             _exit(0);
         }
         // The limit is on the CPU time the execution consumed (all its threads), so that a machine that is
